@@ -170,6 +170,7 @@ package jsonschema
 //@   requires new(a) && a.endIndex >= 0
 //@   modifies a.endIndex
 //@   ensures a.endIndex >= 0
+//@   ensures[C07] atleast: a.endIndex >= end && a.endIndex >= old(a.endIndex)
 
 //@ contract (*annotations).noteProperties(a, props)
 //@   requires annsOwned(a)
@@ -259,6 +260,13 @@ package jsonschema
 //@   atline[C01,C12] "// numbers:" cp2 uses samejv: okConst(schema, instance)
 //@   atline[C01] "// strings:" cp3 uses samejv,shaped: okNum(schema, instance)
 //@   atline[C01] "// $dynamicRef:" cp4 uses samejv,shaped: okStr(schema, instance)
+//@   atline[C01,C07] "nContains := 0" items20a uses stacklen,pfx: st.rs.draft == 1 ==> isold(schema) && isold(schema.PrefixItems) && (forall j int {schema.PrefixItems[j]} :: 0 <= j && j < len(schema.PrefixItems) && j < rvlen(instance) ==> vok(st, len(stk0) + 1, rvindex(instance, j), schema.PrefixItems[j]))
+//@   atline[C07] "nContains := 0" items20b uses anns,end3: st.rs.draft == 1 ==> new(anns) && isold(schema) && isold(schema.PrefixItems) && (anns.endIndex >= len(schema.PrefixItems) || anns.endIndex >= rvlen(instance))
+//@   atline[C01,C07] "nContains := 0" items20c uses stacklen,anns,rest: st.rs.draft == 1 && schema.Items != nil ==> new(anns) && isold(schema) && isold(schema.PrefixItems) && anns.allItems && (forall j int {rvindex(instance, j)} :: len(schema.PrefixItems) <= j && j < rvlen(instance) ==> vok(st, len(stk0) + 1, rvindex(instance, j), schema.Items))
+//@   atline[C01,C02,C07] "nContains := 0" items07a uses stacklen,pfx7: st.rs.draft == 0 && !isnil(schema.ItemsArray) ==> isold(schema) && isold(schema.ItemsArray) && (forall j int {schema.ItemsArray[j]} :: 0 <= j && j < len(schema.ItemsArray) && j < rvlen(instance) ==> vok(st, len(stk0) + 1, rvindex(instance, j), schema.ItemsArray[j]))
+//@   atline[C07] "nContains := 0" items07b uses anns,end7: st.rs.draft == 0 && !isnil(schema.ItemsArray) ==> new(anns) && isold(schema) && isold(schema.ItemsArray) && (anns.endIndex >= len(schema.ItemsArray) || anns.endIndex >= rvlen(instance))
+//@   atline[C01,C02,C07] "nContains := 0" items07c uses stacklen,anns,add7: st.rs.draft == 0 && !isnil(schema.ItemsArray) && schema.AdditionalItems != nil ==> new(anns) && isold(schema) && isold(schema.ItemsArray) && anns.allItems && (forall j int {rvindex(instance, j)} :: len(schema.ItemsArray) <= j && j < rvlen(instance) ==> vok(st, len(stk0) + 1, rvindex(instance, j), schema.AdditionalItems))
+//@   atline[C01,C02,C07] "nContains := 0" items07d uses stacklen,anns,items7: st.rs.draft == 0 && isnil(schema.ItemsArray) && schema.Items != nil ==> new(anns) && anns.allItems && (forall j int {rvindex(instance, j)} :: 0 <= j && j < rvlen(instance) ==> vok(st, len(stk0) + 1, rvindex(instance, j), schema.Items))
 //@   atline[C07] "validation-01#section-6.4" contains uses stacklen,anns,cont: schema.Contains != nil ==> new(anns) && newOrNil(anns.evaluatedIndexes) && (forall j int {rvindex(instance, j)} :: 0 <= j && j < rvlen(instance) && vok(st, len(stk0) + 1, rvindex(instance, j), schema.Contains) ==> anns.evaluatedIndexes != nil && has(anns.evaluatedIndexes, j) && anns.evaluatedIndexes[j])
 //@   atline[C01] "// objects" cp5 uses samejv,shaped,p_items: okItems(schema, instance)
 //@   atline[C01] "if callerAnns != nil {" cp6 uses samejv,shaped,p_props: okProps(schema, instance)
@@ -306,6 +314,23 @@ package jsonschema
 //@     invariant[C12] noneq: isold(schema) && isold(schema.Enum) && !ok && (forall j int {schema.Enum[j]} :: 0 <= j && j <= $idx ==> !eqv(rvof(schema.Enum[j]), instance))
 //@     exit[C12] found: isold(schema) && isold(schema.Enum) && ($idx < len(schema.Enum) ==> 0 <= $idx && eqv(rvof(schema.Enum[$idx]), instance))
 //@     exit[C12] none: isold(schema) && isold(schema.Enum) && ($idx >= len(schema.Enum) ==> !ok && (forall j int {schema.Enum[j]} :: 0 <= j && j < len(schema.Enum) ==> !eqv(rvof(schema.Enum[j]), instance)))
+//@   loop "range schema.PrefixItems"
+//@     invariant[C01,C07] pfx uses stacklen: isold(schema) && isold(schema.PrefixItems) && (forall j int {schema.PrefixItems[j]} :: 0 <= j && j <= $idx && j < rvlen(instance) ==> vok(st, len(stk0) + 1, rvindex(instance, j), schema.PrefixItems[j]))
+//@     exit[C01,C07] pfxdone uses stacklen,pfx: isold(schema) && isold(schema.PrefixItems) && ($idx >= len(schema.PrefixItems) || $idx >= rvlen(instance) ==> (forall j int {schema.PrefixItems[j]} :: 0 <= j && j < len(schema.PrefixItems) && j < rvlen(instance) ==> vok(st, len(stk0) + 1, rvindex(instance, j), schema.PrefixItems[j])))
+//@   loop "for i < instance.Len()#3"
+//@     invariant[C01,C07] rest uses stacklen: isold(schema) && isold(schema.PrefixItems) && len(schema.PrefixItems) <= i && (forall j int {rvindex(instance, j)} :: len(schema.PrefixItems) <= j && j < i ==> vok(st, len(stk0) + 1, rvindex(instance, j), schema.Items))
+//@     invariant[C07] end3 uses anns: new(anns) && isold(schema) && isold(schema.PrefixItems) && (anns.endIndex >= len(schema.PrefixItems) || anns.endIndex >= rvlen(instance))
+//@     exit[C01,C07] restdone uses stacklen,rest: isold(schema) && isold(schema.PrefixItems) && (i >= rvlen(instance) ==> (forall j int {rvindex(instance, j)} :: len(schema.PrefixItems) <= j && j < rvlen(instance) ==> vok(st, len(stk0) + 1, rvindex(instance, j), schema.Items)))
+//@   loop "range schema.ItemsArray"
+//@     invariant[C01,C02,C07] pfx7 uses stacklen: isold(schema) && isold(schema.ItemsArray) && (forall j int {schema.ItemsArray[j]} :: 0 <= j && j <= $idx && j < rvlen(instance) ==> vok(st, len(stk0) + 1, rvindex(instance, j), schema.ItemsArray[j]))
+//@     exit[C01,C02,C07] pfx7done uses stacklen,pfx7: isold(schema) && isold(schema.ItemsArray) && ($idx >= len(schema.ItemsArray) || $idx >= rvlen(instance) ==> (forall j int {schema.ItemsArray[j]} :: 0 <= j && j < len(schema.ItemsArray) && j < rvlen(instance) ==> vok(st, len(stk0) + 1, rvindex(instance, j), schema.ItemsArray[j])))
+//@   loop "for i < instance.Len()"
+//@     invariant[C01,C02,C07] add7 uses stacklen: isold(schema) && isold(schema.ItemsArray) && len(schema.ItemsArray) <= i && (forall j int {rvindex(instance, j)} :: len(schema.ItemsArray) <= j && j < i ==> vok(st, len(stk0) + 1, rvindex(instance, j), schema.AdditionalItems))
+//@     invariant[C07] end7 uses anns: new(anns) && isold(schema) && isold(schema.ItemsArray) && (anns.endIndex >= len(schema.ItemsArray) || anns.endIndex >= rvlen(instance))
+//@     exit[C01,C02,C07] add7done uses stacklen,add7: isold(schema) && isold(schema.ItemsArray) && (i >= rvlen(instance) ==> (forall j int {rvindex(instance, j)} :: len(schema.ItemsArray) <= j && j < rvlen(instance) ==> vok(st, len(stk0) + 1, rvindex(instance, j), schema.AdditionalItems)))
+//@   loop "for i < instance.Len()#2"
+//@     invariant[C01,C02,C07] items7 uses stacklen: 0 <= i && (forall j int {rvindex(instance, j)} :: 0 <= j && j < i ==> vok(st, len(stk0) + 1, rvindex(instance, j), schema.Items))
+//@     exit[C01,C02,C07] items7done uses stacklen,items7: i >= rvlen(instance) ==> (forall j int {rvindex(instance, j)} :: 0 <= j && j < rvlen(instance) ==> vok(st, len(stk0) + 1, rvindex(instance, j), schema.Items))
 //@   loop "range instance.Len()"
 //@     invariant[C07] cont uses stacklen,anns: new(anns) && newOrNil(anns.evaluatedIndexes) && (forall j int {rvindex(instance, j)} :: 0 <= j && j < $i && vok(st, len(stk0) + 1, rvindex(instance, j), schema.Contains) ==> anns.evaluatedIndexes != nil && has(anns.evaluatedIndexes, j) && anns.evaluatedIndexes[j])
 //@   loop "range schema.AnyOf"
